@@ -76,27 +76,72 @@ Proof.
   inversion Hnd; subst. constructor; [cbn [fst snd]; apply dslice_step; assumption|apply IH; assumption].
 Qed.
 
-Lemma append_piece nop iv st c c' last bl gl :
+(* an alignment table whose requirements hold for the blocks in question: no padding is needed *)
+Definition holds (iv : ival) (align : list (nat * Z)) (b : iblk) : Prop :=
+  forall a, aget (ib_id b) align = Some a -> 0 < a /\ (iv_addr iv + ib_off b) mod a = 0.
+
+Lemma first_aligned_spec align bs :
+  match first_aligned align bs with
+  | Some b => In b bs /\ exists a, aget (ib_id b) align = Some a
+  | None => True
+  end.
+Proof.
+  unfold first_aligned.
+  assert (G : forall l acc, (match acc with Some b => In b bs /\ exists a, aget (ib_id b) align = Some a | None => True end) ->
+              (forall x, In x l -> In x bs) ->
+              match fold_left (fun acc b => match aget (ib_id b) align with
+                                            | None => acc
+                                            | Some _ => match acc with Some a => if ib_off b <? ib_off a then Some b else acc | None => Some b end
+                                            end) l acc with
+              | Some b => In b bs /\ exists a, aget (ib_id b) align = Some a
+              | None => True
+              end).
+  { induction l as [|x l IH]; intros acc Ha Hl; cbn [fold_left]; [exact Ha|].
+    apply IH; [|intros y Hy; apply Hl; right; exact Hy].
+    destruct (aget (ib_id x) align) as [a|] eqn:Ex; [|exact Ha].
+    destruct acc as [b0|]; [destruct (ib_off x <? ib_off b0); [|exact Ha]|]; (split; [apply Hl; left; reflexivity|exists a; exact Ex]). }
+  apply G; [exact I|auto].
+Qed.
+
+Lemma append_piece nop align iv st c c' last bl gl :
   jinv iv st c false bl -> 0 <= c -> c <= c' -> c' <= iv_size iv -> Z.of_nat (length (iv_contents iv)) = iv_size iv ->
   NoDup (map fst (iv_symex iv)) -> Forall (fun m => NoDup (map fst m)) (iv_tabs iv) ->
-  exists st', append_interval nop [] st (piece iv c c' last gl) = Ok st' /\ jinv iv st' c' last (bl ++ gl).
+  (forall b, In b gl -> holds iv align b) ->
+  exists st', append_interval nop align st (piece iv c c' last gl) = Ok st' /\ jinv iv st' c' last (bl ++ gl).
 Proof.
-  intros [A1 A2 A3 A4 A5 A6 A7] H0 Hle Hsz Hlen Hn1 Hn2.
+  intros [A1 A2 A3 A4 A5 A6 A7] H0 Hle Hsz Hlen Hn1 Hn2 Hal.
   assert (Hl : Z.of_nat (length (iv_contents (j_dest st))) = c) by (rewrite A3, slice_length by lia; lia).
   unfold append_interval.
   replace (iv_size (j_dest st) - Z.of_nat (length (iv_contents (j_dest st)))) with 0 by lia.
   cbn [insert_padding Z.eqb bind].
-  cbn [piece iv_blocks]. rewrite first_aligned_nil. rewrite align_address_one.
-  replace (j_addr st + 0 - (j_addr st + 0)) with 0 by lia. cbn [insert_padding Z.eqb bind].
-  eexists. split; [reflexivity|].
-  constructor; cbn [j_dest iv_addr iv_size iv_contents iv_blocks iv_symex iv_tabs j_addr piece].
-  - exact A1.
-  - lia.
-  - rewrite A3. apply slice_app; lia.
-  - rewrite A4. f_equal. rewrite Hl. apply shift_back_id.
-  - rewrite Hl. apply dslice_step; assumption.
-  - rewrite Hl. apply tabs_step; assumption.
-  - lia.
+  cbn [piece iv_blocks].
+  pose proof (first_aligned_spec align (map (fun b => mk_iblk (ib_id b) (ib_off b - c) (ib_size b) (ib_code b)) gl)) as F.
+  destruct (first_aligned align (map (fun b => mk_iblk (ib_id b) (ib_off b - c) (ib_size b) (ib_code b)) gl)) as [b'|].
+  - destruct F as (Hin & a & Ea). apply in_map_iff in Hin as (b0 & <- & Hb0). cbn [ib_id ib_off] in *. rewrite Ea.
+    destruct (Hal b0 Hb0 a Ea) as (Hpos & Hmod).
+    assert (Hz : align_address (j_addr st + (ib_off b0 - c)) a - (j_addr st + (ib_off b0 - c)) = 0).
+    { rewrite align_address_aligned; [lia|exact Hpos|]. rewrite A7. replace (iv_addr iv + c + (ib_off b0 - c)) with (iv_addr iv + ib_off b0) by lia. exact Hmod. }
+    rewrite Hz. cbn [insert_padding Z.eqb bind].
+    eexists. split; [reflexivity|].
+    constructor; cbn [j_dest iv_addr iv_size iv_contents iv_blocks iv_symex iv_tabs j_addr piece].
+    + exact A1.
+    + lia.
+    + rewrite A3. apply slice_app; lia.
+    + rewrite A4. f_equal. rewrite Hl. apply shift_back_id.
+    + rewrite Hl. apply dslice_step; assumption.
+    + rewrite Hl. apply tabs_step; assumption.
+    + lia.
+  - rewrite align_address_one.
+    replace (j_addr st + 0 - (j_addr st + 0)) with 0 by lia. cbn [insert_padding Z.eqb bind].
+    eexists. split; [reflexivity|].
+    constructor; cbn [j_dest iv_addr iv_size iv_contents iv_blocks iv_symex iv_tabs j_addr piece].
+    + exact A1.
+    + lia.
+    + rewrite A3. apply slice_app; lia.
+    + rewrite A4. f_equal. rewrite Hl. apply shift_back_id.
+    + rewrite Hl. apply dslice_step; assumption.
+    + rewrite Hl. apply tabs_step; assumption.
+    + lia.
 Qed.
 
 (* ---- all the pieces ---- *)
@@ -108,24 +153,26 @@ Fixpoint chain (c : Z) (bs : list Z) (size : Z) : Prop :=
 Lemma chain_le : forall bs c size, chain c bs size -> c <= size.
 Proof. induction bs as [|nb t IH]; intros c size H; cbn in H; [exact H|]. destruct H as (A & B). specialize (IH _ _ B). lia. Qed.
 
-Definition jstep nop (acc : result jstate) (x : ival) : result jstate := do st <- acc; append_interval nop [] st x.
+Definition jstep nop align (acc : result jstate) (x : ival) : result jstate := do st <- acc; append_interval nop align st x.
 
-Lemma join_pieces nop iv :
+Lemma join_pieces nop align iv :
   Z.of_nat (length (iv_contents iv)) = iv_size iv ->
   NoDup (map fst (iv_symex iv)) -> Forall (fun m => NoDup (map fst m)) (iv_tabs iv) ->
   forall t gb ge gl st bl,
   jinv iv st gb false bl -> 0 <= gb -> chain gb (map gbegin t) (iv_size iv) ->
-  exists st', fold_left (jstep nop) (pieces iv ((gb, ge, gl) :: t)) (Ok st) = Ok st' /\
+  (forall b, In b (gl ++ concat (map gblocks t)) -> holds iv align b) ->
+  exists st', fold_left (jstep nop align) (pieces iv ((gb, ge, gl) :: t)) (Ok st) = Ok st' /\
               jinv iv st' (iv_size iv) true (bl ++ concat (map gblocks ((gb, ge, gl) :: t))).
 Proof.
-  intros Hlen Hn1 Hn2. induction t as [|[[nb ne] nl] t IH]; intros gb ge gl st bl J H0 Hc.
+  intros Hlen Hn1 Hn2. induction t as [|[[nb ne] nl] t IH]; intros gb ge gl st bl J H0 Hc Hal.
   - cbn [pieces fold_left jstep bind map gblocks snd concat]. cbn in Hc.
-    destruct (append_piece nop iv st gb (iv_size iv) true bl gl J H0 Hc ltac:(lia) Hlen Hn1 Hn2) as (st' & E & J').
+    destruct (append_piece nop align iv st gb (iv_size iv) true bl gl J H0 Hc ltac:(lia) Hlen Hn1 Hn2 (fun b Hb => Hal b (in_or_app _ _ _ (or_introl Hb)))) as (st' & E & J').
     exists st'. split; [exact E|]. rewrite app_nil_r. exact J'.
   - cbn [map gbegin fst chain] in Hc. destruct Hc as (Hle & Hc). pose proof (chain_le _ _ _ Hc) as Hnb.
     cbn [pieces]. rewrite Z.min_l by lia. cbn [fold_left jstep bind].
-    destruct (append_piece nop iv st gb nb false bl gl J H0 Hle Hnb Hlen Hn1 Hn2) as (st1 & E & J1).
+    destruct (append_piece nop align iv st gb nb false bl gl J H0 Hle Hnb Hlen Hn1 Hn2 (fun b Hb => Hal b (in_or_app _ _ _ (or_introl Hb)))) as (st1 & E & J1).
     rewrite E. destruct (IH nb ne nl st1 (bl ++ gl) J1 ltac:(lia) Hc) as (st' & E' & J').
+    { intros b Hb. apply Hal. apply in_or_app. right. cbn [map gblocks snd concat]. exact Hb. }
     exists st'. split; [exact E'|]. cbn [map gblocks snd concat] in *. rewrite <- app_assoc in J'. exact J'.
 Qed.
 
@@ -145,14 +192,15 @@ Definition good_groups (gs : list group) (size : Z) : Prop :=
   | _ => True
   end.
 
-Theorem join_split_round_trip nop next iv :
+Theorem join_split_round_trip nop align next iv :
   Z.of_nat (length (iv_contents iv)) = iv_size iv ->
   NoDup (map fst (iv_symex iv)) -> Forall (fun m => NoDup (map fst m)) (iv_tabs iv) ->
   good_groups (group_blocks (iv_blocks iv) []) (iv_size iv) ->
-  exists r, join_byte_intervals nop [] next (split_byte_interval iv) = Ok r /\
+  (forall b, In b (concat (map gblocks (group_blocks (iv_blocks iv) []))) -> holds iv align b) ->
+  exists r, join_byte_intervals nop align next (split_byte_interval iv) = Ok r /\
             same_ival r iv (match group_blocks (iv_blocks iv) [] with [] | [_] => iv_blocks iv | gs => concat (map gblocks gs) end).
 Proof.
-  intros Hlen Hn1 Hn2 Hg. unfold split_byte_interval.
+  intros Hlen Hn1 Hn2 Hg Hal. unfold split_byte_interval.
   destruct (group_blocks (iv_blocks iv) []) as [|[[g0b g0e] gl0] [|[[nb ne] nl] t]] eqn:Eg.
   - exists iv. split; [reflexivity|]. constructor; auto. clear. induction (iv_tabs iv); constructor; auto.
   - exists iv. split; [reflexivity|]. constructor; auto. clear. induction (iv_tabs iv); constructor; auto.
@@ -164,11 +212,12 @@ Proof.
     assert (J0 : jinv iv st0 nb false gl0).
     { constructor; cbn; try reflexivity; [apply first_get_upto|].
       clear. induction (iv_tabs iv) as [|m l IH]; cbn [map]; constructor; [apply first_get_upto|exact IH]. }
-    destruct (join_pieces nop iv Hlen Hn1 Hn2 t nb ne nl st0 gl0 J0 H0 Hc) as (st' & E & J').
+    destruct (join_pieces nop align iv Hlen Hn1 Hn2 t nb ne nl st0 gl0 J0 H0 Hc) as (st' & E & J').
+    { intros b Hb. apply Hal. cbn [map gblocks snd concat]. apply in_or_app. right. exact Hb. }
     assert (Hp : exists p ps, pieces iv ((nb, ne, nl) :: t) = p :: ps) by (destruct t as [|[[a b] c0] t']; cbn [pieces]; eauto).
     destruct Hp as (p & ps & Ep). rewrite Ep in *. 
     exists (j_dest st'). split.
-    + unfold join_byte_intervals. unfold group in *. rewrite Ep. fold (jstep nop). fold st0. rewrite E. reflexivity.
+    + unfold join_byte_intervals. unfold group in *. rewrite Ep. fold (jstep nop align). fold st0. rewrite E. reflexivity.
     + destruct J' as [A1 A2 A3 A4 A5 A6 A7]. constructor.
       * exact A1.
       * exact A2.
@@ -241,14 +290,16 @@ Lemma groups_concat iv : concat (map gblocks (group_blocks (iv_blocks iv) [])) =
 Proof. rewrite group_blocks_concat. reflexivity. Qed.
 
 (* the round trip, for every fully initialized interval whose blocks are sorted and start inside it *)
-Theorem join_split_is_identity nop next iv :
+Theorem join_split_is_identity nop align next iv :
   Z.of_nat (length (iv_contents iv)) = iv_size iv ->
   NoDup (map fst (iv_symex iv)) -> Forall (fun m => NoDup (map fst m)) (iv_tabs iv) ->
   wf_blocks iv ->
-  exists r, join_byte_intervals nop [] next (split_byte_interval iv) = Ok r /\ same_ival r iv (iv_blocks iv).
+  (forall b, In b (iv_blocks iv) -> holds iv align b) ->
+  exists r, join_byte_intervals nop align next (split_byte_interval iv) = Ok r /\ same_ival r iv (iv_blocks iv).
 Proof.
-  intros Hlen Hn1 Hn2 Hwf.
-  destruct (join_split_round_trip nop next iv Hlen Hn1 Hn2 (groups_are_good iv Hwf)) as (r & E & S).
+  intros Hlen Hn1 Hn2 Hwf Hal.
+  destruct (join_split_round_trip nop align next iv Hlen Hn1 Hn2 (groups_are_good iv Hwf)) as (r & E & S).
+  { intros b Hb. apply Hal. rewrite <- (groups_concat iv). exact Hb. }
   exists r. split; [exact E|].
   pose proof (groups_concat iv) as Hc.
   destruct (group_blocks (iv_blocks iv) []) as [|g0 [|g1 t]]; try exact S.
